@@ -1833,6 +1833,30 @@ func (w *World) evalBool(v ssa.Value, st *pathState, eval func(ssa.Value) (bool,
 						return b, true
 					}
 				}
+				// a value whose nil-ness an earlier branch of this path settled (the same
+				// variable tested again, directly or through the phis that carry it)
+				if st != nil && len(st.nilFact) > 0 {
+					rv := stripConv(pr[0])
+					for k := 0; k < 6; k++ {
+						if ph, isPhi := rv.(*ssa.Phi); isPhi {
+							if nv, ok := st.phi[ph]; ok && nv != rv {
+								rv = stripConv(nv)
+								continue
+							}
+						}
+						if mv, ok := loadCell(rv, st); ok && mv.v != rv {
+							rv = stripConv(mv.v)
+							continue
+						}
+						break
+					}
+					switch st.nilFact[rv] {
+					case 1:
+						return x.Op == token.NEQ, true
+					case -1:
+						return x.Op == token.EQL, true
+					}
+				}
 				// the error result of a callee that was expanded on this path
 				if st != nil && st.callTerm != nil {
 					var call *ssa.Call
